@@ -670,6 +670,13 @@ func (c *Conn) resolve(schema, name string) (*Table, error) {
 // ---- statements -------------------------------------------------------------------------
 
 func (c *Conn) matchRows(e *evalCtx, tab *Table, where ast.ExprNode, order *ast.OrderByClause, limit *ast.Limit) (keys []string, rows []Row, err error) {
+	// column references are resolved before any row is looked at (an unknown
+	// column fails the statement even when the table is empty)
+	if where != nil {
+		if err := checkColumns(tab, "where clause", where); err != nil {
+			return nil, nil, err
+		}
+	}
 	ks, rs := e.txn.scan(tab)
 	for i, r := range rs {
 		if where != nil {
@@ -926,6 +933,33 @@ func (c *Conn) checkUnique(tab *Table, self string, r Row) error {
 	}
 	return nil
 }
+
+// checkColumns fails when n references a column tab does not have.
+func checkColumns(tab *Table, clause string, n ast.Node) error {
+	if n == nil {
+		return nil
+	}
+	v := &colChecker{tab: tab, clause: clause}
+	n.Accept(v)
+	return v.err
+}
+
+type colChecker struct {
+	tab    *Table
+	clause string
+	err    error
+}
+
+func (v *colChecker) Enter(n ast.Node) (ast.Node, bool) {
+	if cn, ok := n.(*ast.ColumnNameExpr); ok && v.err == nil && cn.Name != nil {
+		if _, ok := v.tab.Col(cn.Name.Name.L); !ok {
+			v.err = &sqlErr{ErBadField, fmt.Sprintf("Unknown column '%s' in '%s'", cn.Name.Name.O, v.clause)}
+		}
+	}
+	return n, false
+}
+
+func (v *colChecker) Leave(n ast.Node) (ast.Node, bool) { return n, true }
 
 // uniqueLockNames names the lock of every unique secondary index entry of r.
 func uniqueLockNames(tab *Table, r Row) []string {
@@ -1218,6 +1252,14 @@ func (c *Conn) doUpdate(st *ast.UpdateStmt, args []interface{}) (*result, error)
 		return nil, err
 	}
 	e := &evalCtx{srv: c.srv, txn: c.txn, tab: tab, args: args, now: c.srv.now(), conn: c}
+	for _, a := range st.List {
+		if _, ok := tab.Col(a.Column.Name.L); !ok {
+			return nil, &sqlErr{ErBadField, fmt.Sprintf("Unknown column '%s' in 'field list'", a.Column.Name.O)}
+		}
+		if err := checkColumns(tab, "field list", a.Expr); err != nil {
+			return nil, err
+		}
+	}
 	keys, rows, err := c.matchRows(e, tab, st.Where, st.Order, st.Limit)
 	if err != nil {
 		return nil, err
